@@ -159,6 +159,59 @@ PROPS = {
         "assumptions": ["files smaller than 4 GiB (u32 cursor); no safety-net newline before the token (offset_for_token does not count it)",
                         "multi-line tokens with lines >= 65536 bytes truncate (known finding F7)"],
     },
+    "C16": {
+        "level": "proof",
+        "lean": ["PasfmtModel.Props.C16"],
+        "streams": [{"stream": "io", "tool": "iocheck", "which": "c16", "quick": 160, "thorough": 2500}],
+        "oracle_prefixes": ["c16"],
+        "abnormal_binding": False,
+        "explanation": "Theorems on the mode logic: seek/write/set_len leaves exactly the written bytes for every old length; files mode "
+                       "= what stdin->stdout prints (under the explicit RoundTrip hypothesis); check exit iff text differs; read-only "
+                       "modes never write; undecodable files untouched; mode defaults. The model (with UTF-8/UTF-16 computed by the "
+                       "model and legacy codecs supplied as tables) is compared with the built binary on temp trees: file bytes, "
+                       "stdout, exit status, for every mode x path form x encoding x BOM.",
+        "assumptions": ["file-system semantics (partial writes, errors mid-write), walkdir/glob and the legacy codec tables are external",
+                        "RoundTrip: enc(dec(bytes)) = bytes (false for non-canonical legacy sequences: known finding F8)"],
+    },
+    "C17": {
+        "level": "proof",
+        "lean": ["PasfmtModel.Props.C17"],
+        "streams": [{"stream": "io", "tool": "iocheck", "which": "c17", "quick": 200, "thorough": 3000}],
+        "oracle_prefixes": ["c17", "c16"],
+        "abnormal_binding": False,
+        "explanation": "Theorems: BOM sniffing, BOM overrides the configured encoding, UTF-16 encoders round-trip every scalar sequence in "
+                       "both byte orders, written bytes = BOM ++ encode(selected encoding, text), malformed input never rewritten. "
+                       "Binary-level correspondence over UTF-8, UTF-16LE/BE (odd lengths, lone surrogates), windows-125x, ISO-8859-2, "
+                       "Shift_JIS, GBK, Big5, EUC-KR, with and without BOM, files and piped stdin.",
+        "assumptions": ["encoding_rs tables for legacy encodings are external (Python codecs supply the expected bytes on a common subset)"],
+    },
+    "C18": {
+        "level": "proof",
+        "lean": ["PasfmtModel.Props.C18"],
+        "streams": [{"stream": "sched", "tool": "iocheck", "which": "c18", "quick": 40, "thorough": 600}],
+        "oracle_prefixes": ["c18"],
+        "abnormal_binding": False,
+        "explanation": "schedule_independent: for every assignment of files to workers, every per-worker order and every initial buffer, "
+                       "each file's result equals formatting it alone, and the run fails iff some file fails. The binary is run over "
+                       "multisets of files (sizes, encodings, failing subsets) with 1/2/3/16 rayon threads and compared with one "
+                       "invocation per file; the schedule hook's history (buffer length at the start of every item) is replayed "
+                       "through the worker model.",
+        "assumptions": ["true concurrency (data races) is outside the model: relies on Rust's Sync checking and per-call caches",
+                        "rayon's map_init gives one buffer per split of the work (observed through the hook), covered by the theorem's arbitrary initial buffers"],
+    },
+    "C19": {
+        "level": "proof",
+        "lean": ["PasfmtModel.Props.C19"],
+        "streams": [{"stream": "cfg", "tool": "iocheck", "which": "c19", "quick": 200, "thorough": 3000}],
+        "oracle_prefixes": ["c19"],
+        "abnormal_binding": False,
+        "explanation": "Theorems: nearest ancestor with a regular pasfmt.toml wins, none if there is none; last -C > file > default; unknown "
+                       "keys and ill-typed effective values rejected; equal effective configurations are equal functions. The binary "
+                       "is run from nested working directories (depth 0-5) with pasfmt.toml at random levels, decoys further up, "
+                       "directories named pasfmt.toml, --config-file (missing, directory, file) and random splits of options between "
+                       "file and command line, valid and invalid values; acceptance, untouched-ness and output are compared.",
+        "assumptions": ["config, serde, toml and clap are external; the accepted value domains are pinned by the correspondence (their coercions: known finding F20)"],
+    },
     "C13": {
         "level": "proof",
         "lean": ["PasfmtModel.Props.C13"],
